@@ -141,15 +141,28 @@ def verify_unit_worker(qualname: str) -> dict:
 
         def do_vac(item):
             path, ob = item
+            from pyvc.solve import _has_quant
+
+            # (a) quantifier-free part alone contradictory: infeasible branches are pruned with exactly these facts when a
+            # path forks, so this means facts assumed later (a callee's ensures, an engine-level invariant) contradict the
+            # path: an inconsistent assumed contract or an engine modelling error -- never acceptable
+            sq = z3.Solver()
+            sq.set("timeout", 3000)
+            for a_ in list(r.axioms) + list(ob.assumptions):
+                if not _has_quant(a_):
+                    sq.add(a_)
+            if sq.check() == z3.unsat:
+                return 2
             s = z3.Solver()
             s.set("timeout", 1500)
             s.add(*r.axioms)
             s.add(*ob.assumptions)
-            return s.check() == z3.unsat
+            return 1 if s.check() == z3.unsat else 0
 
         todo = [(path, ob) for path, ob in last.items() if path not in bad_paths]
         flags = fork_map(do_vac, todo, inner_jobs)
         vac = [(path or "entry") for (path, _ob), f in zip(todo, flags) if f]
+        out["contradictory_paths"] = [(path or "entry") for (path, _ob), f in zip(todo, flags) if f == 2]
         out["vacuous_paths"] = vac
         out["paths_checked"] = len(last)
     except _UnitTimeout:
@@ -356,6 +369,7 @@ def check_property(prop: str, tier: str, seed: int, write_baseline=False, only_u
     trusted = set()
     assumptions = set()
     solver_ms = 0
+    backends = {}
     for r in results:
         if r["error"]:
             errors.append(f"{r['unit']}: crash\n{r['error']}")
@@ -364,6 +378,8 @@ def check_property(prop: str, tier: str, seed: int, write_baseline=False, only_u
         changed = b_unit.get("sha256") not in (None, r.get("sha256"))
         if r.get("vacuous_requires"):
             errors.append(f"{r['unit']}: contradictory requires (vacuous)")
+        if r.get("contradictory_paths"):
+            errors.append(f"{r['unit']}: the quantifier-free context of a path is contradictory (inconsistent assumed contract or engine modelling error): {r['contradictory_paths'][:2]}")
         if r.get("vacuous_paths") and len(r["vacuous_paths"]) >= max(1, r.get("paths_checked", 0)):
             errors.append(f"{r['unit']}: every path has an unsatisfiable context (vacuous proof): {r['vacuous_paths'][:3]}")
         if r.get("unsupported"):
@@ -384,6 +400,8 @@ def check_property(prop: str, tier: str, seed: int, write_baseline=False, only_u
         for ob in r["obligations"]:
             n_obl += 1
             solver_ms += ob["ms"]
+            if ob["status"] == "discharged":
+                backends[ob["backend"]] = backends.get(ob["backend"], 0) + 1
             base_status = baseline["obligations"].get(ob["id"])
             if ob["status"] == "discharged":
                 n_dis += 1
@@ -486,6 +504,7 @@ def check_property(prop: str, tier: str, seed: int, write_baseline=False, only_u
             if not r["error"]
         ],
         "solver_ms": solver_ms,
+        "discharged_by_backend": backends,
         "slowest_obligations": sorted(((o["ms"], o["id"]) for r in results if not r["error"] for o in r["obligations"]), reverse=True)[:5],
         "undecided": undecided,
         "bounded_fallback_for_undecided_units": fallback,
